@@ -18,6 +18,7 @@ def aliasN (n : Node) (v : Val) (p : List Seg) (live : Bool) : Option Bool :=
   | .slice i e =>
     if i.typn == "[]byte" then some live else
     (match p, w with
+     | [], _ => some live                      -- the path ends on the slice itself: `&v.f` / the element variable
      | s :: rest, .slice _ es _ =>
        (match s.pi with
         | some idx =>
@@ -30,6 +31,7 @@ def aliasN (n : Node) (v : Val) (p : List Seg) (live : Bool) : Option Bool :=
      | _, _ => none)
   | .map _ k mv =>
     (match p, w with
+     | [], _ => some live
      | s :: rest, .map _ ks vs =>
        if k.ptr then none else
        (match (if k.typn == "string" then some (Conv.ok (.str s.text)) else convSeg k.typn k.typu s) with
@@ -41,6 +43,7 @@ def aliasN (n : Node) (v : Val) (p : List Seg) (live : Bool) : Option Bool :=
      | _, _ => none)
   | .struct _ chld =>
     (match p, w with
+     | [], _ => some live
      | s :: rest, .struct fs =>
        (match findField chld fs s.text with
         -- a pointer leaf: the write goes through the pointer, whose target is the object's own even when the
@@ -50,8 +53,8 @@ def aliasN (n : Node) (v : Val) (p : List Seg) (live : Bool) : Option Bool :=
      | _, _ => none)
 termination_by structural p
 
-/-- The path class of C15: struct fields, pointer dereferences and struct-slice indices only, ending
-on an existing scalar / string / bytes element. -/
+/-- The path class of C15: struct fields, pointer dereferences and struct-slice indices only, ending on an existing
+element — a scalar / string / bytes leaf, or a struct, slice or map reached that way (not behind a nil pointer). -/
 def inAliasClass (n : Node) (v : Val) (p : List Seg) : Bool :=
   if n.ptr && v.isNilPtr then false else
   let w := derefIf n.ptr v
@@ -62,15 +65,17 @@ def inAliasClass (n : Node) (v : Val) (p : List Seg) : Bool :=
     (match e with
      | .struct _ _ =>
        (match p, w with
+        | [], _ => true                          -- the path ends on the slice itself
         | s :: rest, .slice _ es _ =>
           (match s.pi with
            | some idx => if 0 ≤ idx ∧ idx < es.length then (match nth? es idx.toNat with | some x => inAliasClass e x rest | none => false) else false
            | none => false)
         | _, _ => false)
-     | _ => false)
-  | .map _ _ _ => false
+     | _ => p.isEmpty)                           -- a slice of anything else: the class ends here
+  | .map _ _ _ => p.isEmpty                      -- the path may end on a map, not pass through it
   | .struct _ chld =>
     (match p, w with
+     | [], _ => true                             -- the path ends on the struct itself
      | s :: rest, .struct fs =>
        (match findField chld fs s.text with
         | some (ch, fv) => if ch.isLeaf then rest.isEmpty && !(ch.ptr && fv.isNilPtr) else inAliasClass ch fv rest
